@@ -301,6 +301,26 @@ fn answer(db: &Db, line: &str, epoch: usize) -> Option<Vec<u8>> {
         if let Some(e) = injected(&name).and_then(err) {
             return Some(e);
         }
+        if !arg.ends_with(",1") {
+            // without the recursion flag IRRd returns the members attribute as registered:
+            // nested set names are not expanded
+            let words: Option<Vec<String>> = db.as_sets.get(&name).cloned().or_else(|| {
+                db.route_sets.get(&name).map(|members| {
+                    members
+                        .iter()
+                        .map(|m| match m {
+                            RsMember::Prefix(p, op) => format!("{p}{}", op.text()),
+                            RsMember::Set(n, op) => format!("{n}{}", op.text()),
+                        })
+                        .collect()
+                })
+            });
+            return Some(match words {
+                Some(w) if !w.is_empty() => data_response(&w.join(" ")),
+                Some(_) => no_data(),
+                None => b"D\n".to_vec(),
+            });
+        }
         if let Some(members) = db.as_set_members(&name) {
             if members.is_empty() {
                 return Some(no_data());
